@@ -20,6 +20,8 @@ LEVEL_TEXT = {
  "C19": _lt("containers+heap", "Invariant monitor over every object handed out by the container and heap simulations (true type, allocation class, size) plus fault enumeration of wrong deallocations / in-place growth on stack, static and embedded objects: must raise ResourceError/ValueError and leave the object intact; the arena ledger flags any free of a non-heap pointer or double free.", TRUST + " Default (checked) build only.", "DESIGN.md section 5 C19"),
  "C07": _lt("exc", "Seeded exploration of try/catch/throw program trees executed through the real macros (lexical nesting up to 3 in one function, dynamic nesting through calls, filters of arity 0-3, throws from bodies, library calls and handlers, sequences; also one tree per worker thread under the baton scheduler) compared event by event with a reference interpreter; uncaught programs run in a child process that must fail with a diagnostic.", TRUST, "DESIGN.md section 5 C07 and appendix C"),
  "C20": _lt("files", "Fault-free exploration plus fault enumeration over a simulated file layer: glibc stdio runs unmodified over fopencookie streams whose backing store, short reads, read/write/seek errors, failing fopen and failing fclose are owned by the simulator; a byte-array model decides round trips, stell/seof and exactly-once close, and guards on every stdio entry point used by File.c prove that a File that is not open never reaches stdio.", TRUST + " glibc is the trusted 'C library view'.", "DESIGN.md section 5 C20"),
+ "C08": _lt("dispatch", "Seeded exploration over lookup histories (cold/warm/re-cooled caches, every public lookup entry point) for all built-in types and classes and run-time types with 0-256 instances, and over schedules: concurrent first lookups by 2-16 threads with pre-emptions placed inside the cache-fill windows by guarded yield hooks; oracle = independent scan of the raw type record.", TRUST, "DESIGN.md section 5 C08"),
+ "C13": _lt("threads", "Seeded exploration over schedules (PCT-style pre-emption lists and chaos mode) of 2-16 real Cello threads serialised by the baton scheduler: per-workload digests equal the single-threaded digests, finalisation stays with the owning thread's collector, exceptions and TLS stay private, join publishes, mutex sections never overlap, no deadlock, thread teardown finalises everything.", TRUST, "DESIGN.md section 5 C13"),
 }
 
 NOT_APPLICABLE = {
@@ -30,12 +32,14 @@ NOT_APPLICABLE = {
 }
 # claimed in DESIGN.md, check not built yet (removed from here as each check lands)
 NOT_BUILT = {
- "C08": "claimed in DESIGN.md; the dispatch engine for this check is not built yet in this commit",
- "C13": "claimed in DESIGN.md; the threads engine for this check is not built yet in this commit",
  "C18": "claimed in DESIGN.md; the configuration-differential stage is not built yet in this commit",
 }
 
 ENGINES = [
+ {"name": "threads", "path": "sim/scen_threads.c", "serves_properties": ["C13", "C06"],
+  "kind_free_text": "2-16 real Cello threads under the baton scheduler (sim/sched.c): container / allocation / exception / TLS / mutex workloads with digests compared against single-threaded runs"},
+ {"name": "dispatch", "path": "sim/scen_dispatch.c", "serves_properties": ["C08"],
+  "kind_free_text": "type-class lookups over built-in and run-time types vs a raw record scan; cold/warm caches; concurrent first lookups with pre-emptions inside the cache fill"},
  {"name": "files", "path": "sim/scen_files.c", "serves_properties": ["C20"],
   "kind_free_text": "File streams over the in-memory file layer sim/vfs.c (fopencookie) with per-operation fault arming; byte-array reference model"},
  {"name": "exc", "path": "sim/scen_exc.c", "serves_properties": ["C07", "C13"],
